@@ -2,9 +2,9 @@ package extractor
 
 import (
 	"encoding/json"
+	"net/url"
 	"strings"
 
-	"github.com/ImVexed/fasturl"
 	"github.com/internetarchive/Zeno/pkg/models"
 )
 
@@ -89,6 +89,6 @@ func findURLs(data interface{}, links *[]string) {
 }
 
 func isValidURL(str string) bool {
-	u, err := fasturl.ParseURL(str)
+	u, err := url.Parse(str)
 	return err == nil && u.Host != ""
 }
